@@ -606,7 +606,7 @@ class Glob(Generic[AnyStr]):
             matcher = functools.partial(self._match_literal, b=match)
         else:
             # File match pattern
-            matcher = target.match
+            matcher = target.fullmatch
         return matcher
 
     def _lexists(self, path: AnyStr) -> bool:
